@@ -23,6 +23,7 @@ type dbOpts struct {
 	WBuf          uint64 `json:"wbuf"`
 	RBuf          uint64 `json:"rbuf"`
 	AsyncWAL      bool   `json:"async_wal,omitempty"`
+	DirectIOWAL   bool   `json:"directio_wal,omitempty"` // with the synchronous WAL every append is refused: all writes fail
 }
 
 func (o dbOpts) options() []simpledb.ExtraOption {
@@ -31,6 +32,9 @@ func (o dbOpts) options() []simpledb.ExtraOption {
 		simpledb.CompactionRatio(float32(o.RatioPct) / 100), simpledb.WriteBufferSizeBytes(o.WBuf), simpledb.ReadBufferSizeBytes(o.RBuf)}
 	if o.AsyncWAL {
 		opts = append(opts, simpledb.EnableAsyncWAL())
+	}
+	if o.DirectIOWAL {
+		opts = append(opts, simpledb.EnableDirectIOWAL())
 	}
 	return opts
 }
